@@ -295,6 +295,23 @@ order: it is `build`.) -/
 def createIndexTC (fl : α → Int) (feats : List (List (α × α))) (res : Option (α × α)) (verbose : Bool) : Res (Index α) :=
   build fl feats res (if verbose then ((1 : Int) : α) else ((0 : Int) : α))
 
+/-- the default value `margin=0.05` of `SpatialIndex.__init__` and of `Network.createSpatialIndex` (`1 / 20`: on `Float`
+the correctly rounded quotient is the double that the literal `0.05` denotes) -/
+def defaultMargin : α := ((1 : Int) : α) / ((20 : Int) : α)
+
+/-- argument handling of the front ends that take a margin: `SpatialIndex(collection, resolution=None, margin=0.05,
+verbose=True)` and `Network.createSpatialIndex(resolution=None, margin=0.05, verbose=True)` (which passes its three
+arguments on in order). `margin = none` is a call that leaves the margin out; a left-out `resolution` is `None`, i.e.
+`res = none`, which `reqSide` handles. -/
+def createIndexArgs (fl : α → Int) (feats : List (List (α × α))) (res : Option (α × α)) (margin : Option α) : Res (Index α) :=
+  build fl feats res (match margin with | some m => m | none => defaultMargin)
+
+/-- `Network.addEdge(edge, source, target)` called for each of `tracks` on a network of `n` edges that has a spatial
+index: the edge is appended and `self.spatial_index.addFeature(edge.geom, self.getNumberOfEdges() - 1)` registers it
+under its running number `n`, `n + 1`, … (the same loop as the constructor's registration loop, started at `n`). -/
+def networkAddEdges (fl : α → Int) (ix : Index α) (n : Nat) (tracks : List (List (α × α))) : Res (Index α) :=
+  addFeatures fl ix n tracks
+
 /-- `request(i, j)` -/
 def requestCell (ix : Index α) (i j : Int) : Res (List Nat) := cellGet ix.grid i j
 
